@@ -455,10 +455,18 @@ func c18DataSwitch(p *Prog, r *Report) {
 		}
 	}
 
+	cmdDataSameField(p, r, "R7d")
+}
+
+// cmdDataSameField: in CmdType.Data the Function and the Value of the returned CmdData come from the same struct
+// field — the function from its fct tag, never from the command's own function element (shared: C18-R7d, C05-R4:
+// the store asserts the payload type registered for the *function*, so a function that does not belong to the value
+// makes that unchecked assertion panic).
+func cmdDataSameField(p *Prog, r *Report, rule string) {
 	// CmdType.Data: SSA — the Function and Value of the returned CmdData come from the same field index
 	fn := p.Method("model", "CmdType", "Data")
 	if fn == nil {
-		r.Undecided("R7d", "anchor:model.CmdType.Data", "", "method not found")
+		r.Undecided(rule, "anchor:model.CmdType.Data", "", "method not found")
 		return
 	}
 	found := false
@@ -513,11 +521,11 @@ func c18DataSwitch(p *Prog, r *Report) {
 				}
 			}
 			ok = fctFromTag && fctIdx != nil && fctIdx == valIdx
-			r.Check("R7d", "model.CmdType.Data|same-field", ok, p.InstrPos(a), "CmdData.Function is derived from the fct tag of the same struct field (same index value) whose value is returned")
+			r.Check(rule, "model.CmdType.Data|same-field", ok, p.InstrPos(a), "CmdData.Function is derived from the fct tag of the same struct field (same index value) whose value is returned")
 		}
 	}
 	if !found {
-		r.Undecided("R7d", "model.CmdType.Data|literal", p.Pos(fn.Pos()), "CmdData literal not found")
+		r.Undecided(rule, "model.CmdType.Data|literal", p.Pos(fn.Pos()), "CmdData literal not found")
 	}
 }
 
